@@ -43,6 +43,37 @@ macro_rules! sink_impl {
 sink_impl!(Subject<'static, V, E>);
 sink_impl!(SubjectThreads<V, E>);
 
+/// key functions: value based ones, and two that depend on how often they were
+/// called (legal: the discriminator is an `FnMut`) — position round-robin and
+/// chunking by position
+#[derive(Clone, Copy, Debug, PartialEq, Eq)]
+pub enum KeyFn {
+  Val(K),
+  RoundRobin,
+  Chunk2,
+}
+impl KeyFn {
+  /// key of the item at position `i` (0-based) in the source
+  fn model(self, i: usize, v: &V) -> V {
+    match self {
+      KeyFn::Val(k) => k.ev(v),
+      KeyFn::RoundRobin => V::I((i % 2) as i64),
+      KeyFn::Chunk2 => V::I((i / 2) as i64),
+    }
+  }
+  /// the closure handed to group_by
+  fn make(self) -> impl FnMut(&V) -> V + Send + 'static {
+    let mut calls = 0usize;
+    move |v: &V| {
+      let k = self.model(calls, v);
+      calls += 1;
+      k
+    }
+  }
+  pub const ALL: [KeyFn; 5] =
+    [KeyFn::Val(K::Const), KeyFn::Val(K::Id), KeyFn::Val(K::Mod2), KeyFn::RoundRobin, KeyFn::Chunk2];
+}
+
 fn val4(k: usize) -> Note {
   match k {
     0..=3 => Note::N(V::I(k as i64)),
@@ -53,7 +84,7 @@ fn val4(k: usize) -> Note {
 
 macro_rules! group_job {
   ($fname:ident, $subj:ty, $label:expr) => {
-    fn $fname(key: K, len: usize) -> Job {
+    fn $fname(key: KeyFn, len: usize) -> Job {
       Job::new(format!("group_by({key:?}) over {} L{len}", $label), move |ch, obs| {
         let _w = world::World::new();
         let mut src = <$subj>::default();
@@ -63,7 +94,7 @@ macro_rules! group_job {
           GroupSink { groups: groups.clone(), outer: outer.clone(), _s: Default::default() };
         let _u = src
           .clone()
-          .group_by::<_, _, $subj>(move |v: &V| key.ev(v))
+          .group_by::<_, _, $subj>(key.make())
           .actual_subscribe(sink);
         let mut hist: Vec<Note> = vec![];
         for _ in 0..len {
@@ -80,10 +111,10 @@ macro_rules! group_job {
           // model
           let inp = Seq::from_notes(&hist);
           let mut keys: Vec<V> = vec![];
-          for x in &inp.items {
-            let k = key.ev(x);
-            if !keys.contains(&k) {
-              keys.push(k);
+          let item_keys: Vec<V> = inp.items.iter().enumerate().map(|(i, x)| key.model(i, x)).collect();
+          for k in &item_keys {
+            if !keys.contains(k) {
+              keys.push(k.clone());
             }
           }
           let term: Vec<Note> = match inp.t {
@@ -110,8 +141,13 @@ macro_rules! group_job {
             break;
           }
           for (k, p) in gs.iter() {
-            let mut exp: Vec<Note> =
-              inp.items.iter().filter(|x| key.ev(x) == *k).cloned().map(Note::N).collect();
+            let mut exp: Vec<Note> = inp
+              .items
+              .iter()
+              .zip(item_keys.iter())
+              .filter(|(_, ik)| *ik == k)
+              .map(|(x, _)| Note::N(x.clone()))
+              .collect();
             exp.extend(term.iter().cloned());
             if p.notes() != exp {
               obs.fail(
@@ -188,10 +224,14 @@ pub fn plan(tier: Tier) -> Plan {
     Tier::Thorough => 8,
   };
   let mut jobs = vec![];
-  for key in K::ALL {
+  for key in KeyFn::ALL {
     for first in 0..6 {
       jobs.push(job_local(key, len).root(vec![first]));
       jobs.push(job_threads(key, len).root(vec![first]));
+    }
+  }
+  for key in K::ALL {
+    for first in 0..6 {
       for form in [Form::Local, Form::Threads] {
         jobs.push(flatten_job(key, form, len).root(vec![first]));
       }
@@ -203,8 +243,8 @@ pub fn plan(tier: Tier) -> Plan {
       prop: "C20".into(),
       tier: tier_name(tier),
       engine: "E1 opseq".into(),
-      rule: "every script up to the length bound over items {0,1,2,3} + complete + error (events after the terminal included) x key functions {constant, identity, mod 2} x Subject / SubjectThreads groups, a probe attached to each group inside the announcement callback; after every event: groups announced once per key in first-appearance order, every group probe holds exactly the items of its key in source order plus the terminal once, outer stream terminal once; group_by + flat_map(identity) reproduces the source; non-trivial = something was delivered".into(),
-      bounds: json!({"script_len": len, "key_functions": 3, "item_alphabet": 4}),
+      rule: "every script up to the length bound over items {0,1,2,3} + complete + error (events after the terminal included) x key functions {constant, identity, value mod 2, position round-robin, position chunking (stateful FnMut keys)} x Subject / SubjectThreads groups, a probe attached to each group inside the announcement callback; after every event: groups announced once per key in first-appearance order, every group probe holds exactly the items of its key in source order plus the terminal once, outer stream terminal once; group_by + flat_map(identity) reproduces the source; non-trivial = something was delivered".into(),
+      bounds: json!({"script_len": len, "key_functions": 5, "item_alphabet": 4}),
       assumptions: vec!["order in which different groups receive the terminal is not asserted".into()],
     },
   }
